@@ -1,4 +1,5 @@
 import Gittuf.Props.C01
+import Gittuf.Props.C02b
 #print axioms Gittuf.World.C01_tip_full
 #print axioms Gittuf.World.C01_tip_latest
 #print axioms Gittuf.World.C01_no_entry
@@ -22,3 +23,4 @@ import Gittuf.Props.C01
 #print axioms Gittuf.World.C01_full_exact
 #print axioms Gittuf.World.polInForce_eq_policyBefore
 #print axioms Gittuf.World.attInForce_eq_attBefore
+#print axioms Gittuf.World.C01_policy_in_force_is_policyBefore
